@@ -612,6 +612,14 @@ def _dispatch_walks(ctx: Ctx, pm: ParserModel) -> Dict[str, List[Tuple[Tuple[str
                         called = called + (env[c.func.id][8:],)
                     else:
                         h = handler_of(c.func)
+                        if h is None and isinstance(c.func, (ast.Call, ast.Subscript)):
+                            # the looked-up handler is called where it is looked up: `table.get(tok.type, default)(tok, doxygen)`
+                            k_l = sym(c.func)
+                            e_l = lookups.get(k_l) if k_l else None
+                            if isinstance(e_l, tuple) and e_l:
+                                e_l = e_l[0]
+                            if isinstance(e_l, str) and e_l.startswith("handler:"):
+                                h = e_l[8:]
                         called = called + ((h or norm(c.func)),)
             if n.kind == "stmt" and isinstance(st, ast.Assign) and len(st.targets) == 1 and isinstance(st.targets[0], (ast.Name, ast.Tuple)):
                 v = st.value
